@@ -2,7 +2,8 @@
 
 Monitor: per controlled run the results of every thread, errors escaping to callers, body executions
 per distinct call, deadlocks, the memory cache's accounts after the threads finish, call stacks.
-Oracle: sequential executions of the same thread bodies + the execution recorder + the cache invariant.
+Oracle: sequential executions of the same thread bodies (cache state, provenance records) + the execution
+recorder + the cache invariant.
 Schedules are driven by vf.sched (baton scheduler over sys.monitoring)."""
 import collections
 import hashlib
@@ -16,7 +17,8 @@ ID = "C09"
 LEVEL = "exploration"
 RULE = ("scenarios {same key x2, same key x3, different keys, two functions with identical result bytes, nested call "
         "f->g against a direct call of g, batch against a single call, two overlapping batches, three threads with two "
-        "calls each over three keys} x store {cold, warm store + cold cache, warm "
+        "calls each over three keys, the same call through modifier clones (ignore_result / partial / force_local), a caller "
+        "whose one-element batch is computed by another thread (provenance records compared)} x store {cold, warm store + cold cache, warm "
         "cache} x cache budget {4 KiB (evictions), 16 MiB}; yield points: every line of runner_local.py and "
         "storage_base.py (thorough: also storage_filesystem.py), every function entry in the other memento modules; "
         "systematic driver: every schedule with one preemption (each yield point x each other thread, for each "
@@ -38,6 +40,11 @@ SCENARIOS = {
     "batch": [[["batch", ["k1", "k2"]]], [["produce", "k2"]]],
     "batch_overlap": [[["batch", ["k1", "k2"]]], [["batch", ["k2", "k1", "k2"]]]],
     "three_keys": [[["produce", "k1"], ["produce", "k3"]], [["produce", "k2"], ["produce", "k1"]], [["produce2", "k3"]]],
+    # the same call through modifier clones (different function objects, one storage key)
+    "clone_ignore": [[["produce", "k1"]], [["produce.ignore_result", "k1"]]],
+    "clone_partial": [[["produce.partial", "k1"]], [["produce.force_local", "k1"]]],
+    # provenance: outer reaches produce only through a one-element batch of nest, which another thread computes
+    "provenance": [[["outer", "k1"]], [["nest", "k1"]]],
 }
 STORES = ["cold", "warm_store", "warm_cache"]
 BUDGETS = {"4KiB": 4 * env.KIB, "16MiB": 16}
@@ -93,6 +100,12 @@ def do_op(op):
 
     if op[0] == "batch":
         return ffuncs.produce.call_batch([{"case_id": k} for k in op[1]])
+    if op[0] == "produce.ignore_result":
+        return ffuncs.produce.ignore_result()(op[1])
+    if op[0] == "produce.force_local":
+        return ffuncs.produce.force_local()(op[1])
+    if op[0] == "produce.partial":
+        return ffuncs.produce.partial(case_id=op[1])()
     return getattr(ffuncs, op[0])(op[1])
 
 
@@ -102,6 +115,10 @@ def expected_op(op):
         return [t[k] for k in op[1]]
     if op[0] == "nest":
         return [t[op[1]], 1]
+    if op[0] == "outer":
+        return [t[op[1]], [t[op[1]], 1]]
+    if op[0] == "produce.ignore_result":
+        return None
     return t[op[1]]
 
 
@@ -114,8 +131,10 @@ def entries_of(scenario):
                 out |= {("produce", k) for k in op[1]}
             elif op[0] == "nest":
                 out |= {("nest", op[1]), ("produce", op[1])}
+            elif op[0] == "outer":
+                out |= {("outer", op[1]), ("produce2", op[1]), ("nest", op[1]), ("produce", op[1])}
             else:
-                out.add((op[0], op[1]))
+                out.add((op[0].split(".")[0], op[1]))
     return out
 
 
@@ -139,6 +158,22 @@ def cache_state(st):
     return [c.memory_usage, sorted((k.split("/")[0].split(":")[-1] + "/" + k[-6:], e.has_value) for k, e in c.cache.items())]
 
 
+def provenance(scenario):
+    """Recorded provenance of every entry of the scenario: ordered direct invocations and dependency set."""
+    from vf import ffuncs
+
+    out = {}
+    for fn, k in sorted(entries_of(scenario)):
+        m = getattr(ffuncs, fn).memento(k)
+        if m is None:
+            out["%s(%s)" % (fn, k)] = None
+            continue
+        out["%s(%s)" % (fn, k)] = [
+            [[i.fn_reference.qualified_name, i.arg_hash] for i in m.invocation_metadata.invocations],
+            sorted(r.qualified_name for r in m.function_dependencies)]
+    return out
+
+
 def make_body(ops, out_list):
     def body():
         from twosigma.memento.call_stack import CallStack
@@ -149,8 +184,12 @@ def make_body(ops, out_list):
     return body
 
 
+PROV = []  # provenance records left by the sequential executions of the current case
+
+
 def sequential_states(sc, scenario, store, budget):
     states = []
+    del PROV[:]
     bodies = SCENARIOS[scenario]
     for n, perm in enumerate(itertools.permutations(range(len(bodies)))):
         st = setup(sc.path("seq%d" % n), scenario, store, budget)
@@ -158,6 +197,9 @@ def sequential_states(sc, scenario, store, budget):
             for op in bodies[i]:
                 do_op(op)
         states.append(cache_state(st))
+        prov = provenance(scenario)
+        if prov not in PROV:
+            PROV.append(prov)
     return states
 
 
@@ -198,7 +240,15 @@ def controlled_run(root, scenario, store, budget, strategy):
             bad.append(("a thread's call stack is not empty after its calls returned", str(depths)))
     for sig, msg in cache_invariant(st._memory_cache):
         bad.append(("memory cache accounting after the threads finished: " + sig, msg))
-    return s, bad, cache_state(st)
+    state = cache_state(st)
+    if not bad:
+        prov = provenance(scenario)
+        if prov not in PROV:
+            diff = {k: v for k, v in prov.items() if all(v != p.get(k) for p in PROV)}
+            bad.append(("recorded provenance after the threads finished differs from every sequential execution",
+                        "entries %s; sequential executions record %s" % (json.dumps(diff)[:600],
+                                                                        json.dumps({k: PROV[0].get(k) for k in diff})[:600])))
+    return s, bad, state
 
 
 def trace_id(s):
@@ -264,7 +314,15 @@ def run_case(case):
             out["obs"]["yield_points_passed"] += s.step
             if pre:
                 out["nontrivial"].append("%s/%s/%s/%s" % (scenario, store, budget, tid))
-            if budget == "16MiB" and not bad and state not in seq:
+            # a call that ignores its result legitimately leaves a memento-only entry where, sequentially, the value
+            # read by the other caller would have stayed: compare the resident key sets only
+            relaxed = any(op[0] == "produce.ignore_result" for body in SCENARIOS[scenario] for op in body)
+            keys = lambda stt: sorted(k for k, _ in stt[1])
+            if budget == "16MiB" and not bad and relaxed:
+                if keys(state) not in [keys(x) for x in seq]:
+                    bad.append(("memory cache after the threads finished differs from every sequential execution",
+                                "resident entries %s; sequential orders give %s" % (state, seq)))
+            elif budget == "16MiB" and not bad and state not in seq:
                 bad.append(("memory cache after the threads finished differs from every sequential execution",
                             "final (usage, resident entries) %s; sequential orders give %s" % (state, seq)))
             elif not bad and state[0] not in {x[0] for x in seq} and budget == "16MiB":
